@@ -1117,28 +1117,36 @@ func (w *World) finish() {
 			db.VerifStopTimers()
 		}
 	}
-	w.cancel()
-	if w.lst != nil {
-		w.lst.Close()
+	// first the clients hang up: every parser goroutine delivers its end-of-stream to a
+	// handler that is still listening (a handler that left first - on a cancelled
+	// context - would leave its parser blocked for ever on an unbuffered channel,
+	// and with it the connection and its buffers); then the context is cancelled
+	pump := func() {
+		for i := 0; i < 400; i++ {
+			time.Sleep(time.Nanosecond)
+			synctest.Wait()
+			var run *vsync.Task
+			for _, t := range w.vs.Pending() {
+				if w.vs.Enabled(t) {
+					run = t
+					break
+				}
+			}
+			if run == nil {
+				break
+			}
+			w.vs.Release(run)
+		}
 	}
 	for _, c := range w.cs {
 		c.conn.clientClose()
 	}
-	for i := 0; i < 400; i++ {
-		time.Sleep(time.Nanosecond)
-		synctest.Wait()
-		var run *vsync.Task
-		for _, t := range w.vs.Pending() {
-			if w.vs.Enabled(t) {
-				run = t
-				break
-			}
-		}
-		if run == nil {
-			break
-		}
-		w.vs.Release(run)
+	pump()
+	w.cancel()
+	if w.lst != nil {
+		w.lst.Close()
 	}
+	pump()
 }
 
 // simListener is the net.Listener the real server.Start accepts from when the
